@@ -8,7 +8,7 @@ import os
 from .mdibharness import Projector, apply_tok, content
 from .mirrorharness import install_clock
 from .pair import Pair
-from .sched import Scheduler, trace_provider_mdib
+from .sched import Scheduler, trace_provider_mdib, trace_provider_txid
 from .tlc import SPEC_DIR, MachineryError, json_lines, run_tlc
 
 HANDLES = ['vmd', 'ch', 'm1', 'm2', 'pc', 'dA']
@@ -25,6 +25,8 @@ class Lab:
         self.sched = Scheduler(record_only=True)
         self.ref = _SchedRef(self.sched)
         trace_provider_mdib(self.mdib, self.ref)
+        trace_provider_txid(self.pair.provider, self.ref)
+        self.txids = []
         self.proj = Projector(HANDLES, CTX)
         self.tok_n = 0
         # traced point for "notification put on the wire"
@@ -125,6 +127,21 @@ class Lab:
                     mgr.remove_descriptor(conc(a))
             return fn
 
+        def o_unknown(tag):
+            # an operation request for a handle that is no operation: answered with Fail, consumes a transaction id
+            def fn():
+                fut = self.pair.consumer.set_service_client.set_string(f'no_such_operation_{tag}', 'x')
+                res = fut.result(timeout=5)
+                self.txids.append(int(res.InvocationInfo.TransactionId))
+            return fn
+
+        def o_setstring(value):
+            def fn():
+                fut = self.pair.consumer.set_service_client.set_string('DN_SET', value)
+                res = fut.result(timeout=5)
+                self.txids.append(int(res.InvocationInfo.TransactionId))
+            return fn
+
         def r_ctx(handles):
             def fn():
                 hs = None if handles is None else [proj.map_c.get(h) or conc(h) for h in handles]
@@ -138,6 +155,8 @@ class Lab:
             'W_descr_m1': w_descr('m1'), 'W_descr_ch': w_descr('ch'), 'W_ctx': w_ctx(),
             'R_state_m1': r_state(['m1'], 'GetMdState[m1]'), 'R_state_all': r_state(None, 'GetMdState[]'),
             'R_mdib': r_mdib(), 'R_descr': r_descr(), 'R_ctx_all': r_ctx(None), 'R_ctx_pc': r_ctx(['pc']),
+            'O_unknown_a': o_unknown('a'), 'O_unknown_b': o_unknown('b'), 'O_unknown_c': o_unknown('c'),
+            'O_setstring_a': o_setstring('va'), 'O_setstring_b': o_setstring('vb'),
             'R_descr_dA': r_descr_of(['dA']), 'W_add_dA': w_add('dA', 'vmd'), 'W_del_dA': w_del('dA'),
         }
         return table[name]
@@ -200,6 +219,8 @@ class Lab:
     def _execute(self, names, schedule):
         self.reads = []
         self.wire = []
+        self.txids = []
+        txid0 = self.pair.provider._transaction_id   # noqa: SLF001
         s = Scheduler()
         self.ref.s = s
         threads = {i + 1: s.spawn(i + 1, self.op(n)) for i, n in enumerate(names)}
@@ -230,7 +251,7 @@ class Lab:
         errs = [f'{names[t - 1]}: {e!r}'[:200] for t, e in sorted(getattr(s, 'errors', {}).items())]
         executed = [[t, e['op'], e['lock']] for t, e in s.events]
         return {'ops': list(names), 'schedule': list(schedule), 'reads': list(self.reads), 'phist': phist,
-                'wire': list(self.wire), 'executed': executed, 'errors': errs}
+                'wire': list(self.wire), 'executed': executed, 'errors': errs, 'txids': list(self.txids), 'txid0': txid0}
 
     def close(self):
         self.ref.s = Scheduler(record_only=True)
